@@ -517,6 +517,34 @@ LawBytesR(b, r) ==          \* r = Lex(b)
 
 LawBytes(b) == LawBytesR(b, Lex(b))
 
+\* Stretching.  Inserting k more filler bytes at the start of the body of a comment, of a
+\* whitespace run or of a quoted / verbatim string changes nothing but the end of that token and
+\* the offsets after it (kinds, number of tokens and the tiling are preserved).  TLC checks it
+\* for k = 1, 2 on every case of the item universes; the check then applies it with k around
+\* 2^25 (where the packed span representation changes) to the real lexer.
+StretchAt(b, t) ==      \* <<0-based insertion offset, filler byte>> or <<>>
+  LET c == At(b, t.s + 1) IN
+  CASE t.kind = "Whitespace" -> <<t.s, 32>>
+    [] t.kind = "Comment" /\ c = 35 -> <<t.s + 1, 97>>
+    [] t.kind = "Comment" /\ c = 47 -> <<t.s + 2, 97>>
+    [] t.kind = "String" /\ c \in {34, 39} -> <<t.s + 1, 97>>
+    [] t.kind = "String" /\ c = 64 -> <<t.s + 2, 97>>
+    [] OTHER -> <<>>
+Ins(b, at, x, k) == SubSeq(b, 1, at) \o [j \in 1..k |-> x] \o SubSeq(b, at + 1, Len(b))
+KS(t) == <<t.kind, t.s, t.e>>
+Stretched(toks, j, k) ==
+  [m \in 1..Len(toks) |-> IF m < j THEN KS(toks[m])
+                          ELSE IF m = j THEN <<toks[m].kind, toks[m].s, toks[m].e + k>>
+                          ELSE <<toks[m].kind, toks[m].s + k, toks[m].e + k>>]
+LawStretchR(b, r) ==
+  r.st = "ok" =>
+    \A j \in 1..Len(r.toks) :
+      LET p == StretchAt(b, r.toks[j]) IN
+      p # <<>> => \A k \in 1..2 :
+        LET r2 == Lex(Ins(b, p[1], p[2], k)) IN
+        /\ r2.st = "ok"
+        /\ [m \in 1..Len(r2.toks) |-> KS(r2.toks[m])] = Stretched(r.toks, j, k)
+
 \* UTF-8 laws
 LawScalar(cp) == IsScalar(cp) =>
   LET e == Utf8Enc(cp) u == Unit(e, 1) IN u.ok /\ u.n = Len(e) /\ u.cp = cp /\ Utf8Lossy(e) = <<cp>>
